@@ -472,6 +472,9 @@ fn run_direct(ch: &mut Ch, verbose: bool) -> Outcome {
                 req.set_method(RequestType::Get);
                 req.set_path(&path);
                 req.message.set_token(token.clone());
+                // the client's own message id, from the same small alphabet as
+                // the server's notification ids (the two spaces are unrelated)
+                req.message.header.message_id = mid;
                 let subj = &mut w.subject;
                 if kind == 0 {
                     req.set_observe_flag(ObserveOption::Register);
